@@ -1,6 +1,21 @@
 package main
 
-import "golang.org/x/tools/go/packages"
+import (
+	"os"
+	"path/filepath"
 
-// genSSA emits the T4 facts (buffer-operation summaries and the package-level access table).
-func genSSA(pkgs []*packages.Package, leanDir, outDir string) {}
+	"golang.org/x/tools/go/packages"
+)
+
+// genSSA emits the T4 facts for C18 (the C19 access table is emitted by genAccess):
+//
+//	<harness>/gen_buffers.go          the listing of exported byte-slice functions (buflist.go)
+//	<lean>/BufferProgs.lean           the buffer-operation IR of every function (bufir.go)
+//	<out>/buffer_ir.json              notes for the evidence (havoc'd functions, retAlias, …)
+func genSSA(pkgs []*packages.Package, leanDir, outDir string) {
+	harnessDir := filepath.Join(filepath.Dir(filepath.Clean(outDir)), "harness")
+	if st, err := os.Stat(filepath.Join(harnessDir, "go.mod")); err == nil && !st.IsDir() {
+		writeIfChanged(filepath.Join(harnessDir, "gen_buffers.go"), genBufList(pkgs))
+	}
+	genBufIR(pkgs, leanDir, outDir)
+}
